@@ -1,11 +1,16 @@
 #!/usr/bin/env python3
 """File a confirmed seeded change under /verif/seeded/<name>/ and record which checks catch it.
-usage: tools/seed_keep.py <seed-out-dir> <confirm.json> <name> <Cxx> [Cyy ...]   (first property = the one it was written against)
-Applies patch.diff to /repo (git apply), runs ./check for every claimed property, undoes it (git checkout -- . / git apply -R)."""
+usage: tools/seed_keep.py [--scratch] <seed-out-dir> <confirm.json> <name> <Cxx>   (Cxx = the property it was written against)
+Applies patch.diff to /repo (git apply), runs ./check for every claimed property, undoes it (git checkout -- .).
+With --scratch the patch is applied to an rsync copy of /repo's working tree instead and the checks run with VERIF_REPO=<copy>
+(same code path; used while other work needs /repo's tree untouched)."""
 import json, os, shutil, subprocess, sys, re
 HERE = os.path.dirname(os.path.dirname(os.path.abspath(__file__)))
 sys.path.insert(0, os.path.join(HERE, 'lib'))
 import meta
+SCRATCH = '--scratch' in sys.argv
+if SCRATCH:
+    sys.argv.remove('--scratch')
 src, confirm, name = os.path.abspath(sys.argv[1]), sys.argv[2], sys.argv[3]
 target = sys.argv[4]
 dst = os.path.join(HERE, 'seeded', name)
@@ -15,15 +20,24 @@ for f in ('patch.diff', 'demo.diff', 'README.md'):
         shutil.copy(os.path.join(src, f), os.path.join(dst, f))
 conf = json.load(open(confirm))
 assert conf.get('confirmed'), 'seed is not confirmed: %s' % confirm
-st = subprocess.run(['git', '-C', '/repo', 'status', '--porcelain'], capture_output=True, text=True).stdout.strip()
-assert not st, '/repo working tree is not clean:\n' + st
-r = subprocess.run(['git', '-C', '/repo', 'apply', os.path.join(dst, 'patch.diff')], capture_output=True, text=True)
-assert r.returncode == 0, r.stderr
+env = dict(os.environ)
+if SCRATCH:
+    import tempfile
+    root = tempfile.mkdtemp(prefix='aquavm-seed-keep.', dir='/var/tmp')
+    subprocess.run(['rsync', '-a', '--exclude', '/target', '--exclude', '.git', '/repo/', root + '/'], check=True)
+    r = subprocess.run(['patch', '-p1', '--no-backup-if-mismatch', '-i', os.path.join(dst, 'patch.diff')], cwd=root, capture_output=True, text=True)
+    assert r.returncode == 0, r.stdout + r.stderr
+    env['VERIF_REPO'] = root
+else:
+    st = subprocess.run(['git', '-C', '/repo', 'status', '--porcelain'], capture_output=True, text=True).stdout.strip()
+    assert not st, '/repo working tree is not clean:\n' + st
+    r = subprocess.run(['git', '-C', '/repo', 'apply', os.path.join(dst, 'patch.diff')], capture_output=True, text=True)
+    assert r.returncode == 0, r.stderr
 results = {}
 try:
     import concurrent.futures as cf
     def one(p):
-        r = subprocess.run([os.path.join(HERE, 'check'), p], capture_output=True, text=True, cwd=HERE)
+        r = subprocess.run([os.path.join(HERE, 'check'), p], capture_output=True, text=True, cwd=HERE, env=env)
         obl = sorted(set(re.findall(r'^  obligation (\S+?)(?=: | \()', r.stdout, re.M)))
         return p, dict(rc=r.returncode, obligations=obl, summary=r.stdout.strip().split('\n')[-1])
     with cf.ThreadPoolExecutor(max_workers=4) as ex:
@@ -31,7 +45,10 @@ try:
             results[p] = v
             print(p, v['rc'], v['obligations'], flush=True)
 finally:
-    subprocess.run(['git', '-C', '/repo', 'checkout', '--', '.'], check=True)
+    if SCRATCH:
+        shutil.rmtree(root, ignore_errors=True)
+    else:
+        subprocess.run(['git', '-C', '/repo', 'checkout', '--', '.'], check=True)
 caught = [p for p, v in results.items() if v['rc'] == 1]
 undec = [p for p, v in results.items() if v['rc'] == 2]
 readme = open(os.path.join(dst, 'README.md')).read() if os.path.exists(os.path.join(dst, 'README.md')) else ''
@@ -45,7 +62,8 @@ meta_json = dict(
                    how='tools/seed_confirm.py in a scratch git worktree of /repo: cargo nextest baseline with the patch, demo test with and without the patch (native runner)'),
     checks=dict(caught_by=caught, undecided=undec, target_check_catches=target in caught,
                 obligations={p: v['obligations'] for p, v in results.items() if v['rc'] == 1},
-                how='git -C /repo apply patch.diff; ./check Cxx for every claimed property; git -C /repo checkout -- .'),
+                how=('patch applied to an rsync copy of /repo, ./check Cxx with VERIF_REPO=<copy> for every claimed property' if SCRATCH else
+                     'git -C /repo apply patch.diff; ./check Cxx for every claimed property; git -C /repo checkout -- .')),
 )
 json.dump(meta_json, open(os.path.join(dst, 'meta.json'), 'w'), indent=1)
 print('CAUGHT BY', caught, 'UNDECIDED', undec)
